@@ -15,7 +15,8 @@ META = {
             "sharing nothing absent, self entry as documented), hence independent of the arrival order; isSynced is false exactly "
             "when a resize completed since the last build and a rebuild re-establishes the spec.  The model is tied to "
             "dune/common/parallel/remoteindices.hh on every run by running extracted model, extracted spec and the real class under "
-            "mpirun on identical generated decompositions.",
+            "mpirun on identical generated decompositions, each with global index type int and with one of long / unsigned long long / "
+            "bigunsignedint<55|64|100> (values using the most significant digit).",
     "note": "Trusted: Coq kernel, extraction, OCaml driver, C++ MPI harness, OpenMPI (matching, non-overtaking, MPI_Pack of the struct "
             "datatype, Ssend/Recv rendezvous: the ring's deadlock freedom is argued, not proved), std::map; mixed one/two-set "
             "configurations are outside the property (model returns MIXED); seqNo int overflow not modelled.",
@@ -157,8 +158,19 @@ def oracle(c, impl_line):
     return None
 
 
-def sig_of(c, kind):
-    return "C04:%s:%s:%s" % (kind, "two" if c.two else "one", "nbr" if c.mode else "ring")
+def sig_of(c, kind, gtype=0):
+    return "C04:%s:%s:%s%s" % (kind, "two" if c.two else "one", "nbr" if c.mode else "ring", (":gtype=" + GTYPES[gtype]) if gtype else "")
+
+
+GTYPES = ["int", "long", "unsigned_long_long", "bigunsignedint55", "bigunsignedint64", "bigunsignedint100"]
+
+
+def gtype_of(line):
+    """the global index type the harness picks for this case line under C04_GTYPE=rot: 1 + FNV-1a(line) % 5"""
+    h = 2166136261
+    for ch in line.encode():
+        h = ((h ^ ch) * 16777619) & 0xffffffff
+    return 1 + h % 5
 
 
 # ----------------------------------------------------------------------------- generator
@@ -344,19 +356,19 @@ def run_impl(ctx, exe, cases, tag, tmo=None, env=None):
     return out, shim
 
 
-def rerun_alone(ctx, exe, c, tag):
-    res, _ = run_impl(ctx, exe, [c], tag, tmo=120)
+def rerun_alone(ctx, exe, c, tag, gtype=0):
+    res, _ = run_impl(ctx, exe, [c], tag, tmo=120, env={"C04_GTYPE": str(gtype)})
     return res[0]
 
 
-def shrink(ctx, exe, c, kind):
+def shrink(ctx, exe, c, kind, gtype=0):
     """greedy removal of pairs (same pair in both phases) / of the resize while the oracle still rejects with the same kind"""
     import copy
     budget = [24]
     def fails(d):
         if budget[0] <= 0: return False
         budget[0] -= 1
-        l = rerun_alone(ctx, exe, d, "shrink")
+        l = rerun_alone(ctx, exe, d, "shrink", gtype)
         o = oracle(d, l)
         return o is not None and o[0] == kind
     cur = c
@@ -397,6 +409,28 @@ def run(ctx):
             if not (l2.startswith("HANG") or l2.startswith("CRASH")):
                 ctx.notes.append("case %d failed in the batch (%s) but returned when re-run alone" % (i, (l or "")[:60]))
             io[i] = l2
+    # the same cases once more with the global index type rotating over long / unsigned long long / bigunsignedint<55|64|100>
+    # (ids embedded order-preservingly so that the top bits / the most significant digit are in use): same observation required
+    gio, _ = run_impl(ctx, exe, cases, "gimpl", env={"C04_GTYPE": "rot"})
+    ngt, gstat = 0, {}
+    for i, (c, a) in enumerate(zip(cases, gio)):
+        gt = gtype_of(lines[i]); gstat[GTYPES[gt]] = gstat.get(GTYPES[gt], 0) + 1
+        if a is None or a.startswith("NOT-RUN"): continue
+        if (a.startswith("HANG") or a.startswith("CRASH")) and ngt < 3:
+            a = rerun_alone(ctx, exe, c, "galone", gt)
+        o = oracle(c, a)
+        if o is None and a == io[i]: continue
+        ngt += 1
+        if ngt <= 3 and o is not None:
+            small = shrink(ctx, exe, c, o[0], gt) if o[0] not in ("hang", "crash", "format") else c
+            sl = rerun_alone(ctx, exe, small, "gshrunk", gt) if small is not c else a
+            so = oracle(small, sl) or o
+            ctx.violation(sig_of(c, o[0], gt), {"case": small.line(), "gtype": gt, "global_index_type": GTYPES[gt], "impl": sl, "oracle": so[1],
+                                                 "impl_with_int_globals": rerun_alone(ctx, exe, small, "gint", 0),
+                                                 "original_case": lines[i], "original_impl": a, "replay_cmd": "bin/check C04 --replay <this file>"})
+        elif ngt <= 20:
+            ctx.violation(sig_of(c, o[0] if o else "differs-from-int", gt), {"case": lines[i], "gtype": gt, "global_index_type": GTYPES[gt], "impl": a,
+                          "impl_with_int_globals": io[i], "oracle": o[1] if o else "accepts, but differs from the run with int globals"}, found_input=o is not None)
     # ASan/UBSan build on a subsample (memory safety of the unpack loops and of the pointer-carrying lists)
     sub = list(range(0, len(cases), 9 if ctx.quick else 4))
     so, _ = run_impl(ctx, exe_san, [cases[i] for i in sub], "san", tmo=60 if ctx.quick else 120,
@@ -462,12 +496,13 @@ def run(ctx):
                 "publicity modes, ring/neighbour alternating) + seeded random decompositions from overlap graphs (chain, ring, star, complete, random), "
                 "universe <= 16, attrs <= 3, public flags random / all / none, one or two decompositions, empty ranks, duplicate-global sets (15%), "
                 "ring or neighbour hints (true graph, supersets, self included), resize of source/target/both + second rebuild with same or flipped "
-                "ignorePublic; non-trivial = at least one remote-index entry expected in build 1; distinct = distinct case lines",
+                "ignorePublic; every case is run twice: global index type int, and one of long (with a long-based attribute enum, chunk size 3) / "
+                "unsigned long long / bigunsignedint<55> / <64> / <100> chosen by a hash of the case, ids embedded as (0x80+id)*2^(w-8)+id; non-trivial = at least one remote-index entry expected in build 1; distinct = distinct case lines",
         "samples": [lines[0][:300], lines[len(lines) // 2][:300], lines[-1][:300]],
         "distribution": stats, "impl_model_disagreements": ndis, "oracle_rejections": nviol, "model_spec_disagreements": nspec,
         "pmpi_shim": {"linked": os.path.exists(SHIM), "perturbed_sweeps": shim[0], "calls_reporting_out_of_index_order": shim[1], "delays": shim[2]},
-        "sanitizer_cases": len(sub), "sanitizer_differences": nsan, "exhaustive": False, "cases_not_run_after_repeated_crashes": nnotrun,
-        "traces_validated_against_impl": sum(1 for a in io if not (a.startswith("NOT-RUN") or a.startswith("CRASH") or a.startswith("HANG"))),
+        "global_index_types": gstat, "global_index_type_rejections": ngt, "sanitizer_cases": len(sub), "sanitizer_differences": nsan, "exhaustive": False, "cases_not_run_after_repeated_crashes": nnotrun,
+        "traces_validated_against_impl": sum(1 for a in io + gio if not (a.startswith("NOT-RUN") or a.startswith("CRASH") or a.startswith("HANG"))),
     })
     ctx.assumptions += ["MPI (matching, non-overtaking, Ssend/Recv rendezvous, MPI_Pack/Unpack of the struct datatype) is trusted; the datatype's content is C07",
                         "schedules of the impl are sampled (PMPI shim: seeded probe order and micro-delays); all arrival orders are covered by theorem C04_spec only",
@@ -482,9 +517,10 @@ def replay(ctx, path):
     model = V.build_model(ctx)
     exe = build_impl(ctx)
     mo = V.run_cases(ctx, [model], [line], tag="rmodel")
-    a = rerun_alone(ctx, exe, c, "rimpl")
+    gt = int(rep.get("gtype", 0))
+    a = rerun_alone(ctx, exe, c, "rimpl", gt)
     mm, _, spec = mo[0].partition(" | ")
-    print("case  :", line); print("impl  :", a); print("model :", mm); print("spec  :", spec)
+    print("case  :", line); print("gtype :", GTYPES[gt]); print("impl  :", a); print("model :", mm); print("spec  :", spec)
     o = oracle(c, a)
     print("oracle:", o[1] if o else "accepts")
     return 1 if o else 0
